@@ -1974,9 +1974,7 @@ dnsname_to_labels(u8 *const buf, size_t buf_len, off_t j,
 	if (name_len == 1 && name[0] == '.') {
 		++name;
 	}
-	/* The uncompressed encoding (a length octet per label plus the root
-	 * octet) must fit in 255 octets. */
-	if (name_len + ((name_len && end[-1] == '.') ? 1 : 2) > 255) return -2;
+	if (name_len > 255) return -2;
 
 	for (;;) {
 		const char *const start = name;
